@@ -5,6 +5,42 @@ from .engine import Cfg
 from .roomlib import kv, entries_of_mut, parse_matrix, same_decisions, self_bit_positions
 
 
+def cmut_items(a):
+    """the `mut` key/value dicts of the items of a `cmut` line"""
+    res = []
+    for item in a.get("items", "").split(";"):
+        p = item.split(".", 2)
+        m = {"s": a["s"], "d": a["d"], "r": a["r"]}
+        if p[0] == "a":
+            m["adm"] = p[1]
+        else:
+            m["grp"] = p[0]
+            m["g%s.%s" % (p[0], p[1])] = p[2]
+        res.append(m)
+    return res
+
+
+def reflected(pm, e):
+    """entry `e` (the last of its key, no conflicting tie) shows in the decision matrix `pm` at every date >= e.date"""
+    if pm is None: return False
+    rows = pm[1]
+    def bit(key, col, b): return (rows[key][col] >> b) & 1 == 1
+    ncols = len(next(iter(rows.values())))
+    cols = range(max(e.date, 0), ncols)
+    if e.lst == "adm":
+        return e.key not in rows or all(bit(e.key, c, 0) == e.payload for c in cols)
+    base = 2 + 12 * e.group
+    if e.lst.endswith(".ua"):
+        return e.key not in rows or all(bit(e.key, c, base + 1) == e.payload for c in cols)
+    if e.lst.endswith(".u"):
+        # the group's `valid` bit is: enabled user OR enabled user admin; a disabled user entry is checked only
+        # when the bit `user admin` is off
+        return e.key not in rows or all(bit(e.key, c, base) == e.payload for c in cols if e.payload or not bit(e.key, c, base + 1))
+    ms, ma = e.payload
+    ms = ms or ma   # a right on all rows includes the own rows
+    return all(bit(k, c, base + 2 + 2 * e.key) == ms and bit(k, c, base + 3 + 2 * e.key) == ma for k in rows for c in cols)
+
+
 class C10(Cfg):
     prop = "C10"
     prop_module = "DiscretModel.Props.C10"
@@ -25,8 +61,11 @@ class C10(Cfg):
                   "Each deviation found is a switch with a decide-checked witness: newest-first replay (#4), right normalisation skipped on reload (#5), rooms "
                   "without group/admin dropped on reload — all three FIXED in /repo since (f7a29ff, be6bedc, ee57a96; switches off in Defects.asImplemented, replays "
                   "kept as regression cases) — and, still open: the new-group user rule (#33), equal-date conflicting entries, a group created by a non-admin, "
-                  "an older entry brought by a concurrent edit; the guarded statement (one date per key and list, normalised rights, complete room) is proved for any switch values. "
-                  "The model is tied to /repo by running both on the same generated histories and comparing every verdict and every decision matrix.")
+                  "an older entry brought by a concurrent edit, an entry whose author another instance disabled from an earlier date (kept by the merge, refused by every later importer); the guarded statement (one date per key and list, normalised rights, complete room) is proved for any switch values. "
+                  "The model is tied to /repo by running both on the same generated histories and comparing every verdict and every decision matrix; one history in five "
+                  "sends 2..8 updates of one room WITHOUT awaiting in between (one task each; distinct (list,key) pairs, the caller's own status untouched, so verdicts and result do not "
+                  "depend on the order the service handles them in and the model folds them in item order), then probes live, after restart and on importers; the oracle also asks that "
+                  "every acknowledged overlapping update is reflected by the live room.")
     level_note = ("Trusted: Lean kernel (+propext, Classical.choice, Quot.sound), the hand-written model lean/DiscretModel/Model/{Room,RoomBuild}.lean and "
                   "its correspondence harness. Modelled and exercised: room.rs, validate_room_mutation, load_json/LOAD_QUERY, RoomNode::read/parse, "
                   "prepare_new_room, prepare_room_with_history (honest candidates). Not covered: hostile candidates (C07), the order SQLite returns "
@@ -54,7 +93,8 @@ class C10(Cfg):
         return res
 
     def nontrivial(self, ops, outs):
-        return any(o == "ok" and l.startswith("mut ") for l, o in zip(ops, outs)) and \
+        return any(l.startswith("mut ") or l.startswith("cmut ") for l in ops) and \
+            any("ok" in o.split(",") and (l.startswith("mut ") or l.startswith("cmut ")) for l, o in zip(ops, outs)) and \
             any(o.startswith("m ") for o in outs)
 
     # ------------------------------------------------------------------ oracle
@@ -64,7 +104,9 @@ class C10(Cfg):
         (2) any two decision matrices observed (on any instance, at any time) while the observed instances
             held the same set of accepted room mutations are equal — live, reloaded, imported by a fresh
             instance, imported on top of an earlier version, reloaded by the importer;
-        (3) an export of an instance is accepted by every instance that holds nothing or an earlier version."""
+        (3) an export of an instance is accepted by every instance that holds nothing or an earlier version;
+        (4) every acknowledged update of a batch of overlapping updates (`cmut`: sent without awaiting in between)
+            is reflected by the live room observed right after it."""
         res = []
         version = {}          # site -> frozenset of accepted mutation indices held
         entries = {}          # mutation index -> [Entry]
@@ -73,6 +115,7 @@ class C10(Cfg):
         last_path = {}        # site -> how its in-memory room was last built
         groups_known = set()
         reloaded = set()      # sites whose in-memory room went through a reload at some point
+        pending = {}          # site -> entries acknowledged by the last `cmut`, not yet checked against a live observation
 
         def held(site):
             return version.get(site, frozenset())
@@ -104,7 +147,29 @@ class C10(Cfg):
         group_muts = set()
         for i, (op, out) in enumerate(zip(ops, outs)):
             k, a = kv(op)
-            if k == "mut":
+            if k in ("mut", "cmut", "restart", "sync"):
+                for s2 in ([int(a["s"])] if "s" in a else [int(a["to"])] if "to" in a else []):
+                    pending.pop(s2, None)
+            if k == "cmut":
+                s = int(a["s"])
+                if out in ("bad-op", "err:dead") or s in dead: continue
+                items = cmut_items(a)
+                verdicts = out.split(",")
+                if len(verdicts) != len(items):
+                    res.append(("concurrent-updates-wrong-answer", "line %d: %d updates sent, answer %r" % (i, len(items), out)))
+                    continue
+                acked = []
+                for j, (m, v) in enumerate(zip(items, verdicts)):
+                    if v == "ok":
+                        idx = i + (j + 1) / 16.0
+                        entries[idx] = entries_of_mut(m, idx)
+                        if m.get("grp"): group_muts.add(idx)
+                        version[s] = held(s) | {idx}
+                        acked += entries[idx]
+                if acked:
+                    last_path[s] = "live"
+                    pending[s] = (i, acked)
+            elif k == "mut":
                 s = int(a["s"])
                 if out == "ok":
                     entries[i] = entries_of_mut(a, i)
@@ -150,8 +215,10 @@ class C10(Cfg):
                                 if e.lst.endswith(".ua"): uas.setdefault(e.key, []).append(e)
                             for e in h:
                                 if e.lst.endswith(".u"):
-                                    ok = any(x.date <= e.date and x.payload for x in uas.get(e.author, []))
-                                    if not ok: rule33 = True
+                                    best = None   # the author's last user-admin entry at the user's date
+                                    for x in uas.get(e.author, []):
+                                        if x.date <= e.date and (best is None or x.date >= best.date): best = x
+                                    if not (best and best.payload): rule33 = True
                     # a group created by a key that is not admin of the room (possible at creation: a room without
                     # admin entries): the live path accepts it, every importer refuses the group row
                     def group_creator_not_admin():
@@ -160,7 +227,7 @@ class C10(Cfg):
                             for e in entries[i2]:
                                 if e.lst == "adm": admins.append(e)
                         for i2 in sorted(src):
-                            _, a2 = kv(ops[i2])
+                            _, a2 = kv(ops[int(i2)])
                             for g in [x for x in a2.get("grp", "").split(",") if x]:
                                 if g in seen_groups: continue
                                 seen_groups.add(g)
@@ -183,7 +250,22 @@ class C10(Cfg):
                                 have[k2] = max(have.get(k2, e.date), e.date)
                         return any((e.lst, e.key) in have and e.date < have[(e.lst, e.key)]
                                    for j in src - dst for e in entries[j])
-                    if out == "err:date" and dst and older_entry_for_known_key():
+                    # concurrent edits: an entry whose author, in the MERGED history, is no longer entitled at the entry's
+                    # date (another instance disabled the author from an earlier date on; the holder keeps the entry)
+                    def author_disabled_in_merged_history():
+                        h = history(src)
+                        for e in h:
+                            best = None   # the author's last admin entry at the date it acted
+                            for x in h:
+                                if x.lst == "adm" and x.key == e.author and x.date <= e.date and (best is None or x.date >= best.date): best = x
+                            # every mutation also re-signs the room row / group rows it goes through
+                            if best is not None and not best.payload and best.author != e.author: return True
+                        return False
+                    if out == "err:invalid-node" and author_disabled_in_merged_history():
+                        res.append(("import-fails-author-disabled-by-concurrent-edit",
+                                    "export of site %d refused by site %d (%s, receiver %s): the merged history holds an entry whose author was disabled, by an edit made on another instance, from a date before the entry's"
+                                    % (fr, to, out, "fresh" if not dst else "holds an earlier version")))
+                    elif out == "err:date" and dst and older_entry_for_known_key():
                         res.append(("import-merge-older-entry-refused",
                                     "export of site %d refused by site %d which holds an earlier version (%s): the candidate carries an entry older than the last entry the receiver holds for the same key (concurrent edits)"
                                     % (fr, to, out)))
@@ -206,6 +288,16 @@ class C10(Cfg):
                 if s in dead or out in ("bad-op", "err:dead"): continue
                 vs = held(s)
                 if not vs: continue
+                if s in pending:
+                    line, acked = pending.pop(s)
+                    pm = parse_matrix(out)
+                    if not conflicting_tie(vs):
+                        missing = [e for e in acked if not reflected(pm, e)]
+                        if missing:
+                            res.append(("acknowledged-update-not-reflected-live",
+                                        "site %d: %d of the %d entries acknowledged by the overlapping updates of line %d are not in the live room observed at line %d: %s"
+                                        % (s, len(missing), len(acked), line, i,
+                                           ", ".join("%s[%s]@%d=%s" % (e.lst, e.key, e.date, e.payload) for e in missing[:4]))))
                 how = last_path.get(s, "?")
                 if s in reloaded and how != "reload": how += "-after-reload"
                 if vs in seen:
